@@ -237,6 +237,27 @@ def _hl(mode, p, rev, key, old, new):
     return dict(k="hl", mode=mode, p=p, rev=rev, key=key, old=old, new=new)
 
 
+def _clb(rng, p, cat, so, sn):
+    """global vlan database with NAMED vlans: some ids have their own `vlan N` row with children (old and/or new side),
+    the rest sit on list lines; the buckets are what make_pre builds inside an unchanged parent"""
+    cid = itertools.count()
+    nb_old = {v for v in so if rng.random() < 0.25}
+    nb_new = {v for v in sn if rng.random() < 0.25} | {v for v in nb_old & sn if rng.random() < 0.6}
+    old_lines = lines_c(p, so - nb_old, rnd_cuts(rng, len(items_c(so - nb_old))), "simple", False) if so - nb_old else []
+    new_lines = lines_c(p, sn - nb_new, rnd_cuts(rng, len(items_c(sn - nb_new))), "simple", False) if sn - nb_new else []
+    act = lambda row, blk: dict(row=row, children=("c%d" % next(cid)) if blk else None)
+    removed = [act(r, False) for r in old_lines if r not in new_lines] + \
+              [act("%s %d" % (p, v), True) for v in sorted(nb_old - nb_new)]
+    added = [act(r, False) for r in new_lines if r not in old_lines] + \
+            [act("%s %d" % (p, v), True) for v in sorted(nb_new - nb_old)]
+    unchanged = [act(r, False) for r in new_lines if r in old_lines]
+    affected = [act("%s %d" % (p, v), True) for v in sorted(nb_old & nb_new)]
+    rng.shuffle(removed)
+    rng.shuffle(added)
+    return dict(k="clb", mode="simple", p=p, cat=cat, so=sorted(so), sn=sorted(sn), added=added, removed=removed,
+                unchanged=unchanged, affected=affected)
+
+
 def _cl(mode, p, cat, old, new):
     return dict(k="cl", mode=mode, p=p, cat=cat, old=old, new=new)
 
@@ -302,6 +323,8 @@ def gen(desc):
                     rng.shuffle(old)
                     rng.shuffle(new)
                 yield _cl(mode, p, cat, old, new)
+                if mode == "simple" and rng.random() < 0.5:
+                    yield _clb(rng, p, cat, so, sn)
     elif kind == "pipe":
         rng = random.Random(desc["seed"])
         for _ in range(desc["n"]):
@@ -574,7 +597,7 @@ def impl(case):
         b = buckets(case["old"], case["new"])
         b = {kk: [dict(row=r, children=None) for r in v] for kk, v in b.items()}
         return _call_c(case["mode"], case["cat"], b)
-    if k == "clraw":
+    if k in ("clraw", "clb"):
         return _call_c(case["mode"], case["cat"], case)
     if k == "hp":
         (block, _p, _mode, _rev, noise) = H_SCEN[case["scen"]]
@@ -625,7 +648,7 @@ def requests(case):
     if k == "cl":
         return [dict(op="c11.c_pipe", mode=case["mode"], catalyst=case["cat"],
                      old=list(dict.fromkeys(case["old"])), new=list(dict.fromkeys(case["new"])))]
-    if k == "clraw":
+    if k in ("clraw", "clb"):
         return [dict(op="c11.c_logic", mode=case["mode"], catalyst=case["cat"], added=case["added"],
                      removed=case["removed"], unchanged=case["unchanged"], affected=case["affected"])]
     if k == "hp":
@@ -657,7 +680,7 @@ def model(case, resp):
         return resp[0]
     if k in ("hlraw", "vdiff"):
         return resp[0]
-    if k in ("cl", "clraw"):
+    if k in ("cl", "clraw", "clb"):
         r = resp[0]
         return {"ok": _canon_blocks(r["ok"])} if "ok" in r else r
     if k in ("hp", "cp"):
@@ -884,6 +907,12 @@ def oracle(case, r):
                 if d != (not row.startswith("undo ")):
                     out.append(dict(sig="huawei:direct-flag-wrong", what="yield (%r, %r)" % (d, row)))
         return out
+    if k == "clb":
+        if "err" in r:
+            return [dict(sig="cisco:named:simple:raises-%s" % r["err"], what="logic raised %s on well-formed buckets %r" % (r["err"], case))]
+        rows = [y[1] for y in r["ok"]]
+        fake = dict(old=[], new=[])
+        return _check_cmds(fake, "cisco", "simple", case["p"], rows, ([set(case["so"])], [set(case["sn"])]), [], "named")
     if k in ("cl", "cp"):
         if k == "cl":
             p, mode, tag = case["p"], case["mode"], "direct"
@@ -920,7 +949,7 @@ def nontrivial(case, r):
 def stats(case, r):
     k = case["k"]
     lab = ["kind=" + k, "result=" + ("ok" if "ok" in r else r.get("err", "?"))]
-    if k in ("hl", "hlraw", "cl", "clraw"):
+    if k in ("hl", "hlraw", "cl", "clraw", "clb"):
         lab.append("%s:mode=%s" % (k, case["mode"]))
     if k in ("hp", "cp"):
         lab.append("%s:scen=%s" % (k, case["scen"]))
